@@ -14,7 +14,8 @@ import (
 // call with its outcome, the snapshots the observer took, and Run()'s return.
 
 type KillEv struct {
-	Seq int
+	Task int
+	Seq  int
 	T   time.Duration
 	Sig int
 	Tgt int // pid or -pgid as passed to kill(2)
@@ -59,6 +60,7 @@ type Trans struct {
 }
 
 type Call struct {
+	Task    int
 	Client  string
 	Idx     int
 	Desc    string
@@ -201,7 +203,7 @@ func BuildTruth(sc *Scenario, log *simlog.Log) *Truth {
 					var pid int
 					fmt.Sscanf(f, "%d", &pid)
 					if in := t.ByPid[pid]; in != nil {
-						in.Kills = append(in.Kills, KillEv{e.Seq, e.T, e.N, e.Pid})
+						in.Kills = append(in.Kills, KillEv{e.Task, e.Seq, e.T, e.N, e.Pid})
 					}
 				}
 			}
@@ -210,7 +212,7 @@ func BuildTruth(sc *Scenario, log *simlog.Log) *Truth {
 		case "sut.state":
 			t.Trans[e.Subj] = append(t.Trans[e.Subj], Trans{e.Seq, e.T, e.A, e.Task})
 		case "api.call":
-			c := &Call{Client: e.Subj, Idx: e.N, Desc: e.A, CallSeq: e.Seq, RetSeq: -1, CallT: e.T}
+			c := &Call{Task: e.Task, Client: e.Subj, Idx: e.N, Desc: e.A, CallSeq: e.Seq, RetSeq: -1, CallT: e.T}
 			if j := strings.IndexByte(e.A, '('); j > 0 {
 				c.Op = e.A[:j]
 				c.Arg = strings.TrimSuffix(e.A[j+1:], ")")
